@@ -24,11 +24,36 @@ class CaseTimeout(BaseException):
     pass
 
 
+_ARMED = [False]
+
+
 def _alarm(signum, frame):
-    raise CaseTimeout()
+    # (repeating timer: at the recursion limit, or inside a sys.monitoring callback, the exception raised here can be
+    # lost - the next tick tries again; ticks that arrive after the case was closed are ignored)
+    if _ARMED[0]:
+        raise CaseTimeout()
 
 
 CASE_TIMEOUT = float(os.environ.get("VERIF_CASE_TIMEOUT", "60"))
+
+
+_CKPT = {"out": None, "t0": 0.0, "last": 0.0}
+
+
+def _checkpoint(prop, ctx):
+    """every 10 s, before a case starts: what has been observed so far goes to <out>.part (used if the shard is killed)"""
+    now = time.time()
+    if _CKPT["out"] and now - _CKPT["last"] > 10:
+        _CKPT["last"] = now
+        try:
+            res = result(ctx, prop, _CKPT["t0"])
+            res.update({"n_strata": 0, "n_random": 0, "capped": True, "partial": True})
+            tmp = _CKPT["out"] + ".part.tmp"
+            with open(tmp, "w") as fh:
+                json.dump(res, fh, default=repr)
+            os.replace(tmp, _CKPT["out"] + ".part")
+        except Exception:
+            pass
 
 
 def exec_case(prop, case, ctx, objmode=None):
@@ -41,17 +66,27 @@ def exec_case(prop, case, ctx, objmode=None):
         ctx.count("object-state:" + case["_objmode"])
     ctx.case = case
     ctx.evaluations += 1
-    signal.setitimer(signal.ITIMER_REAL, getattr(prop, "CASE_TIMEOUT", CASE_TIMEOUT))
+    # (repeating: an exception raised by the handler while a sys.monitoring callback is running can be lost, the next
+    # tick lands in ordinary code)
+    _checkpoint(prop, ctx)
+    _ARMED[0] = True
+    signal.setitimer(signal.ITIMER_REAL, getattr(prop, "CASE_TIMEOUT", CASE_TIMEOUT), 0.25)
     try:
-        prop.run(case, ctx)
+        try:
+            prop.run(case, ctx)
+        finally:
+            _ARMED[0] = False
     except CaseTimeout:
+        _ARMED[0] = False
         # wall-clock is never a verdict: a case that runs too long is inconclusive
         ctx.harness_errors.append("case timeout (inconclusive): " + repr(case)[:1500])
+        ctx.count("case-timeouts")
     except RecursionError as e:
         ctx.harness_errors.append("RecursionError in harness: " + tb_str(e)[-1500:])
     except Exception as e:
         ctx.harness_errors.append(tb_str(e))
     finally:
+        _ARMED[0] = False
         signal.setitimer(signal.ITIMER_REAL, 0)
         # contract failures and protected writes that a property did not collect itself
         for name, detail in mon.CONTRACTS.take():
@@ -82,7 +117,13 @@ def main(argv=None):
     except Exception:
         pass
     signal.signal(signal.SIGALRM, _alarm)
+    try:
+        import faulthandler
+        faulthandler.register(signal.SIGUSR1, all_threads=True)  # `kill -USR1 <worker>` prints where it is
+    except Exception:
+        pass
     t0 = time.time()
+    _CKPT.update(out=a.out if not a.cases_file else None, t0=t0, last=t0)
     prop = load_prop(a.pid)
     opts = getattr(prop, "MONITORS", {})
     mon.install(exc=opts.get("exc", True), contracts=opts.get("contracts", True),
@@ -116,6 +157,8 @@ def main(argv=None):
         from .build import OBJ_MODES
         import copy as _copy
         for i, case in enumerate(prop.strata(a.tier)):
+            if ctx.stats.get("case-timeouts", 0) >= 4:
+                break  # (several cases ran into the per-case limit: stop here and report what was seen, inconclusive)
             if i % a.nshards == a.shard:
                 again = _copy.deepcopy(case) if getattr(prop, "OBJ_MODES", True) and ((i // a.nshards) % 2 == 0 or a.tier != "quick") else None
                 exec_case(prop, case, ctx)
@@ -129,7 +172,7 @@ def main(argv=None):
         n_random = 0
         capped = False
         for i in range(a.shard, budget, a.nshards):
-            if time.time() - t0 > a.time_cap:
+            if time.time() - t0 > a.time_cap or ctx.stats.get("case-timeouts", 0) >= 4:
                 capped = True
                 break
             rng = rng_for(a.seed, a.pid, a.tier, i)
